@@ -43,8 +43,33 @@ MS = 1_000_000
 T0 = 1_700_000_000_000_000_000
 
 
-def parse_int(v, default):
+# values that are not text, as an application can give them to register_tracepoint (the service sends text only)
+PYVALS = {'py:none': None, 'py:inf': float('inf'), 'py:nan': float('nan'), 'py:list': [3], 'py:2': 2, 'py:2.0': 2.0, 'py:-1.5': -1.5, 'py:1500.9': 1500.9,
+          'py:0.9': 0.9, 'py:true': True, 'py:-1': -1}
+
+
+def given(v):
+    return PYVALS[v] if isinstance(v, str) and v.startswith('py:') else v
+
+
+def parse_int(v, default, period=False):
+    """What a setting is worth: a whole number as it stands; a fraction rounded up for the period (never two collections less than the
+    period apart) and unusable for the count; whatever cannot be read as a number is unusable: the default."""
+    import math
     if v is None:
+        return default
+    v = given(v)
+    if isinstance(v, bool):
+        return int(v)
+    if isinstance(v, float):
+        if v != v or v in (float('inf'), float('-inf')):
+            return default
+        if v != int(v):
+            return math.ceil(v) if period else default
+        return int(v)
+    if isinstance(v, int):
+        return v
+    if not isinstance(v, str):
         return default
     try:
         return int(v)
@@ -61,6 +86,11 @@ def cases(tier, seed):
     for fc in FCS:
         for fp in FPS:
             out.append({'k': 'seq', 'fc': fc, 'fp': fp, 'win': 'none'})
+    # settings that are not text (register_tracepoint in code): numbers, fractions, None, things that are no numbers at all
+    for fc in ('py:none', 'py:inf', 'py:nan', 'py:list', 'py:2', 'py:2.0', 'py:-1.5', 'py:true', 'py:-1'):
+        out.append({'k': 'seq', 'fc': fc, 'fp': '0', 'win': 'none'})
+    for fp in ('py:none', 'py:inf', 'py:nan', 'py:list', 'py:2', 'py:2.0', 'py:1500.9', 'py:0.9'):
+        out.append({'k': 'seq', 'fc': '-1', 'fp': fp, 'win': 'none'})
     # windows at the LocationAction seam (same unit as ts) and as tracepoint arguments
     for win in ['past', 'future', 'open', 'only-start-open', 'only-end-open', 'closes-soon', 'opens-soon']:
         for fc, fp in (('-1', '0'), ('2', '1'), (None, None)):
@@ -123,9 +153,9 @@ def make_trigger(desc):
     from deep.api.tracepoint.trigger import build_trigger, Trigger, LineLocation, Location, LocationAction
     args = {'condition': 'ok(c)', 'frame_type': 'no_frame'}
     if desc['fc'] is not None:
-        args['fire_count'] = desc['fc']
+        args['fire_count'] = given(desc['fc'])
     if desc['fp'] is not None:
-        args['fire_period'] = desc['fp']
+        args['fire_period'] = given(desc['fp'])
     win = desc['win']
     if win == 'arg-past':
         args['window_end'] = '1'
@@ -259,7 +289,7 @@ def run_case(ctx, desc):
 # ----------------------------------------------------------------------------- sequential (E2)
 def case_seq(ctx, desc):
     fc = parse_int(desc['fc'], 1)
-    P = parse_int(desc['fp'], 1000) * MS
+    P = parse_int(desc['fp'], 1000, period=True) * MS
     win = desc['win']
     dts = sorted({0, 1, max(P - 1, 0), P, P + 1, 10 * P}) if P > 0 else [0, 1]
     if win in ('closes-soon', 'opens-soon'):
